@@ -1,10 +1,10 @@
 /-
 Lemmas/ReaderWorld.lean — the three layers composed: the decoder as written (Model/PullReader) on what a
-contract-obeying broker serves (Spec/Layout) produces fetch rounds that are `Good` in the sense of Lemmas/ReaderRun,
+contract-obeying broker serves (Spec/Layout) produces fetch rounds that are `Good` in the sense of Lemmas/ReaderLoopLTS,
 so the invariant of the reader loop holds with nothing assumed about the `read` calls.
 -/
 import KafkaVerif.Model.ReaderWorld
-import KafkaVerif.Lemmas.ReaderRun
+import KafkaVerif.Lemmas.ReaderLoopLTS
 import KafkaVerif.Lemmas.PullReader
 import KafkaVerif.Model.ReaderFront
 
